@@ -5,6 +5,7 @@ from lib import recdsl as rd
 from lib import pyvals as pv
 from lib.gallina import gQ, gbool
 from props import rec_common as rc
+from props import c17_s3
 
 ID = "C17"
 RUN_MODULE = "RunC17"
@@ -15,7 +16,10 @@ RULE = ("the full decision table skipped x rate {0, 1/4, 1/2, float(0.1), 1, 3/2
         "not} x ignore-forcing x discard {before the force request, after it, not} x outcome {return, raise, interrupt} x draw "
         "{0, rate-eps, rate, rate+eps, 1-eps} with a SCRIPTED random stream (draw == rate is hit exactly), rows grouped into "
         "histories of three runs on one recorder (a forced run must not leak into the next); the S3 cassette's size-based rule "
-        "over ratio x draw with scripted random; seeded real-Random histories run twice and as content/outcome-varied twins; "
+        "over ratio x draw with scripted random, and over histories of 2-3 S3 cassettes with a size-band calculator living in "
+        "one process (created one after the other / interleaved / one saving in between; same or other bucket; a twin with "
+        "other content in the same size bands), each drawing from the generator it constructed itself: every decision "
+        "follows the rule on the tapped draw and cassettes with the same history decide the same; seeded real-Random histories run twice and as content/outcome-varied twins; "
         "non-trivial = a row where the draw decides or a force/discard interacts; distinct = distinct case")
 ASSUMPTIONS = ["the Mersenne Twister is an oracle stream; uniformity is assumed, the kept fraction over a seeded history is "
                "reported as an observation only",
@@ -119,6 +123,9 @@ def generate(rng, tier):
             ds += [max(r - EPS, Fraction(0)), min(r, Fraction(1) - EPS), min(r + EPS, Fraction(1) - EPS)]
         for d in ds:
             cases.append(dict(kind="s3", ratio=ratio, draw=[d.numerator, d.denominator]))
+    # S3 storage-level rule over histories: several cassettes with a size-based calculator in one process, each with
+    # the generator it constructed itself (same history => same decisions, whatever the other cassettes do)
+    cases += c17_s3.generate(rng, tier)
     # seeded real Random: same seed twice, and a twin history that differs only in content and outcome
     n = 60 if tier == "quick" else 2000
     for seed in ([7] if tier == "quick" else [7, 11, 13]):
@@ -148,6 +155,8 @@ def to_gallina(case, obs):
     if case["kind"] == "s3":
         ratio = "None" if case["ratio"] is None else "(Some %s)" % gQ(Fraction(*case["ratio"]))
         return "S3 %s %s %s" % (ratio, gQ(Fraction(*case["draw"])), gbool(obs["kept"]))
+    if case["kind"] == "s3hist":
+        return c17_s3.to_gallina(case, obs)
     return None
 
 
@@ -178,6 +187,8 @@ def direct(case, obs):
         want = True if r is None or r >= 1 else Fraction(*case["draw"]) <= r
         if obs["kept"] != want:
             fails.append(("s3-wrong-decision", "ratio %s draw %s: stored=%s, rule says %s" % (case["ratio"], case["draw"], obs["kept"], want)))
+    elif case["kind"] == "s3hist":
+        fails += c17_s3.direct(case, obs)
     else:
         if obs["a1"] != obs["a2"]:
             fails.append(("not-reproducible", "same seed, same history: decisions differ"))
@@ -203,6 +214,8 @@ def features(case):
             if row["draw"] == row["rate"]:
                 fs.add("draw==rate")
         return fs
+    if case["kind"] == "s3hist":
+        return c17_s3.features(case)
     return {case["kind"]}
 
 
@@ -216,6 +229,9 @@ def shrink_candidates(case):
     if case.get("kind") == "history":
         for c in rc.shrink_candidates(case):
             yield c
+    if case.get("kind") == "s3hist":
+        for c in c17_s3.shrink_candidates(case):
+            yield c
 
 MANIFEST = dict(
     design_ref="6/C17",
@@ -226,7 +242,8 @@ MANIFEST = dict(
          "stream; over N equally spaced draws exactly floor(rate*N)+1 are kept; the S3 storage-level rule is the same function. "
          "Tie: the full decision table (2x6x3x2x3x3 policy combinations x boundary draws, scripted random so that draw == rate "
          "is hit exactly) run on the real TapeRecorder in histories of three, cassette-call kinds and recorder fields compared "
-         "with the model; the real S3TapeCassette._should_sample against the model rule. Direct predicate: harness-side "
+         "with the model; the real S3TapeCassette._should_sample against the model rule, single decisions with a scripted draw "
+         "and histories of several cassettes in one process with their own generators (tapped draws). Direct predicate: harness-side "
          "re-statement of the policy incl. draws consumed; seeded histories twice and as content/outcome-varied twins.",
     note="Trusted: Coq kernel + vm_compute, hand-written model, correspondence harness, harness-side policy re-statement. The "
          "random generator is an oracle stream (uniformity assumed; kept fraction over seeded histories reported, never a "
